@@ -16,10 +16,12 @@ ASSUMPTIONS = ["recorder with no compression modules = identity (C30 covers the 
 TRUSTED = ["correspondence harness; tolerance 1e-9*max|field| (CPML coefficients are generic floats)"]
 LEVEL_TEXT = ("Theorem (any grid, materials with 1+-f <> 0, wall masks, sources, any list of CPML layers with kappa = 1 and a = 0 on the interface row, "
               "geometry_ok): the reverse sweep with interface restoration and field reset reproduces the forward E and H at every earlier step on every "
-              "cell outside all layers, for every T and every j <= T; the decidable geometry hypothesis is evaluated (geometry_okb, proved sound) on "
-              "every scene the correspondence runs. Tie: per-step correspondence of forward-with-CPML (fields and psi) and backward-with-restore/reset.")
-LEVEL_NOTE = ("geometry_ok is proved for concrete scenes by computation, not yet for all slab configurations in general; the recorder is the identity "
-              "pipeline (compression is C30); 9-component tensors are outside the model.")
+              "cell outside all layers, for every T and every j <= T. geometry_ok is proved for EVERY face-slab configuration (C03_geometry_of_face_slabs: "
+              "layers spanning the full transverse extent, touching their own face, on non-wrapping axes; any subset of faces, any thicknesses, "
+              "overlapping edges and corners), giving C03_reverse_sweep_face_slabs with no geometry hypothesis; its boolean decision geometry_okb "
+              "(proved sound) is additionally evaluated on every scene the correspondence runs. Tie: per-step correspondence of forward-with-CPML (fields and psi) and backward-with-restore/reset.")
+LEVEL_NOTE = ("The recorder is the identity pipeline (compression is C30); 9-component tensors are outside the model; layer lists that are not "
+              "face slabs need the per-scene geometry_okb evaluation.")
 TECHNIQUE = "Coq proof (cell-level CPML loop lemmas, stencil locality, invariant over the reverse sweep) + vm_compute correspondence of CPML forward/backward"
 FACES = ("min_x", "max_x", "min_y", "max_y", "min_z", "max_z")
 
